@@ -90,9 +90,9 @@ func c05Send(c *cx) {
 		what string
 		m    func(eng.Point, ast.Node) bool
 	}{
-		{"EncodeToken(*start)", callWithArg(f, "*.EncodeToken", 0, "*local:start<*encoding/xml.StartElement>")},
+		{"EncodeToken(*start)", callWithArg(f, "*.EncodeToken", 0, "*local:*<*encoding/xml.StartElement>")},
 		{"Copy(s.out.e, r)", callWithArg(f, "mellium.im/xmlstream.Copy", 0, "p1.out.e")},
-		{"EncodeToken(start.End())", callWithArg(f, "*.EncodeToken", 0, "encoding/xml.StartElement.End[*start*]()")},
+		{"EncodeToken(start.End())", callWithArg(f, "*.EncodeToken", 0, "encoding/xml.StartElement.End[*]()")},
 		{"Flush", callWithArg(f, "*.Flush", -1, "")},
 	}
 	n := 0
@@ -245,7 +245,7 @@ func c05Params(c *cx) {
 				}
 				return !used
 			})
-			c.r.Check(id, f, "parameter "+pv.Name(), "P: no argument of a transmit call is dropped (every named parameter is read)", f.Pos(), used, "parameter "+pv.Name()+" ("+eng.TypeStr(pv.Type())+") is never read: the caller's argument cannot influence the output")
+			c.r.Check(id, f, "parameter p"+itoa(i)+" ("+eng.TypeStr(pv.Type())+")", "P: no argument of a transmit call is dropped (every named parameter is read)", f.Pos(), used, "parameter "+pv.Name()+" ("+eng.TypeStr(pv.Type())+") is never read: the caller's argument cannot influence the output")
 		}
 	}
 	c.r.Floor(id, "parameters of the transmit API", n, 40)
@@ -297,6 +297,28 @@ func c05StanzaEncoder(c *cx) {
 	g := f.Graph()
 	guard := []string{"eq(recv.depth,1)", "xmpp.isStanzaEmptySpace(*.Name)", "istype(*;encoding/xml.StartElement)"}
 	nApp := map[string]int{}
+	// the two "attribute seen" flags, found by role: the boolean local that is
+	// set to true in the arm of the attribute's name
+	flagName := map[string]string{}
+	for _, attrName := range []string{"id", "from"} {
+		for _, w := range f.Writes() {
+			v := rootLocal(f, w.LHS)
+			if v == nil || w.RHS == nil || eng.TypeStr(v.Type()) != "bool" {
+				continue
+			}
+			if cv := f.ConstVal(w.RHS); cv == nil || cv.ExactString() != "true" {
+				continue
+			}
+			wp, _ := g.Where(w.Stmt)
+			if ok, _ := g.Dominated(wp, "eq(rangeval(*.Attr).Name.Local,\""+attrName+"\")"); ok {
+				flagName[attrName] = v.Name()
+			}
+		}
+		if flagName[attrName] == "" {
+			c.r.Check(id, f, "flag for attribute "+attrName, "a boolean local records that the stanza already carries the attribute", f.Pos(), false, "no boolean local is set to true under the test for attribute "+attrName)
+			flagName[attrName] = "?"
+		}
+	}
 	f.WalkBody(func(nd ast.Node) bool {
 		as, ok := nd.(*ast.AssignStmt)
 		if !ok || len(as.Rhs) != 1 {
@@ -320,13 +342,13 @@ func c05StanzaEncoder(c *cx) {
 		switch local {
 		case "id":
 			nApp["id"]++
-			c.dom(id, f, as, "append of the id attribute", append([]string{"!local:foundID<bool>"}, guard...))
-			c.onlyFacts(id, f, as, "append of the id attribute", append([]string{"!local:foundID<bool>", "!rangenext(*)"}, guard...))
+			c.dom(id, f, as, "append of the id attribute", append([]string{"!local:"+flagName["id"]+"<bool>"}, guard...))
+			c.onlyFacts(id, f, as, "append of the id attribute", append([]string{"!local:"+flagName["id"]+"<bool>", "!rangenext(*)"}, guard...))
 			c.r.Check(id, f, "id attribute value", "K: a missing id is filled from attr.RandomID()", as.Pos(), val != nil && f.Norm(val, &pt) == "internal/attr.RandomID()", "id value is "+f.Norm(val, &pt))
 		case "from":
 			nApp["from"]++
-			c.dom(id, f, as, "append of the from attribute", append([]string{"!local:foundFrom<bool>", "!eq(jid.JID.String[recv.from](),\"\")"}, guard...))
-			c.onlyFacts(id, f, as, "append of the from attribute", append([]string{"!local:foundFrom<bool>", "!eq(jid.JID.String[recv.from](),\"\")", "!rangenext(*)"}, guard...))
+			c.dom(id, f, as, "append of the from attribute", append([]string{"!local:"+flagName["from"]+"<bool>", "!eq(jid.JID.String[recv.from](),\"\")"}, guard...))
+			c.onlyFacts(id, f, as, "append of the from attribute", append([]string{"!local:"+flagName["from"]+"<bool>", "!eq(jid.JID.String[recv.from](),\"\")", "!rangenext(*)"}, guard...))
 			c.r.Check(id, f, "from attribute value", "K: the from attribute is the session's own address", as.Pos(), val != nil && f.Norm(val, &pt) == "jid.JID.String[recv.from]()", "from value is "+f.Norm(val, &pt))
 		}
 		return true
@@ -334,7 +356,7 @@ func c05StanzaEncoder(c *cx) {
 	c.r.Floor(id, "append of id", nApp["id"], 1)
 	c.r.Floor(id, "append of from", nApp["from"], 1)
 	// foundID / foundFrom are set only for non-empty attribute values of that name
-	for _, fl := range []struct{ v, attr string }{{"foundID", "id"}, {"foundFrom", "from"}} {
+	for _, fl := range []struct{ v, attr string }{{flagName["id"], "id"}, {flagName["from"], "from"}} {
 		n := 0
 		for _, w := range f.Writes() {
 			if v := rootLocal(f, w.LHS); v == nil || v.Name() != fl.v {
@@ -344,12 +366,12 @@ func c05StanzaEncoder(c *cx) {
 				continue
 			}
 			n++
-			c.dom(id, f, w.Stmt, fl.v+" = true", []string{"!eq(rangeval(*.Attr).Value,\"\")", "eq(rangeval(*.Attr).Name.Local,\"" + fl.attr + "\")"})
+			c.dom(id, f, w.Stmt, "flag for "+fl.attr+" = true", []string{"!eq(rangeval(*.Attr).Value,\"\")", "eq(rangeval(*.Attr).Name.Local,\"" + fl.attr + "\")"})
 			// ... and only for the stanza's own (unqualified) attribute: xml:id
 			// or foo:from must not stand in for it
-			c.domAny(id, f, w.Stmt, fl.v+" = true [unqualified attribute]", []string{"eq(rangeval(*.Attr).Name.Space,\"\")", "eq(rangeval(*.Attr).Name,encoding/xml.Name{Local:\"" + fl.attr + "\"})", "eq(encoding/xml.Name{Local:\"" + fl.attr + "\"},rangeval(*.Attr).Name)"})
+			c.domAny(id, f, w.Stmt, "flag for "+fl.attr+" = true [unqualified attribute]", []string{"eq(rangeval(*.Attr).Name.Space,\"\")", "eq(rangeval(*.Attr).Name,encoding/xml.Name{Local:\"" + fl.attr + "\"})", "eq(encoding/xml.Name{Local:\"" + fl.attr + "\"},rangeval(*.Attr).Name)"})
 		}
-		c.r.Floor(id, fl.v+" = true", n, 1)
+		c.r.Floor(id, "flag for "+fl.attr+" = true", n, 1)
 	}
 	// the stanza goes out in the stream's content namespace: on every path of
 	// the top-level stanza arm the name's Space is set to recv.ns or known to
